@@ -274,13 +274,13 @@ def strat_obj(draw, tier="quick", kinds=("collection", "collection", "collection
         o = draw(S.collection_spec())
         hi = o.pop("hi")
     elif kind == "gene":
-        o = draw(S.gene_spec(max_tx=3, max_exons=3, max_len=8))
+        o = draw(S.gene_spec(max_tx=3, max_exons=3, max_len=8, cds_overlap_prob=8))
         hi = max(t["exons"][-1][1] for t in o["transcripts"])
     elif kind == "fc":
         o = draw(S.feature_collection_spec())
         hi = max(f["blocks"][-1][1] for f in o["features"])
     elif kind == "tx":
-        o = draw(S.transcript_spec(max_exons=4))
+        o = draw(S.transcript_spec(max_exons=4, cds_overlap_prob=8))
         hi = o["exons"][-1][1]
     elif kind == "feat":
         o = draw(S.feature_spec())
@@ -340,7 +340,7 @@ def strat_determinism(draw, tier="quick"):
 
 @st.composite
 def strat_sensitivity(draw, tier="quick"):
-    g = draw(S.gene_spec(max_tx=3, max_exons=3, max_len=8, coding=draw(st.sampled_from([True, True, None]))))
+    g = draw(S.gene_spec(max_tx=3, max_exons=3, max_len=8, cds_overlap_prob=8, coding=draw(st.sampled_from([True, True, None]))))
     return {"obj": g, "tx_index": draw(st.integers(0, 5)), "frame_index": draw(st.integers(0, 5)), "feature": draw(S.feature_spec())}
 
 
